@@ -7,6 +7,7 @@ CONSTANTS
   CrcModel = "lazy"
   IgnoreSigpipe = TRUE
   Cap = 2
+  Buffered = TRUE
   Gaps = "overlap"
   Emit = FALSE
 INVARIANTS TypeOK Isolation Transparency Available NoCrcRace
